@@ -1,6 +1,7 @@
 package main
 
 import (
+	"luahelper-lsp/langserver/check/compiler/lexer"
 	"fmt"
 	"os"
 	"strings"
@@ -88,6 +89,37 @@ func runC04(res *lib.Result, tier string, seed int64, args []string) error {
 			res.Dist("unmodelled(gbk-or-reentrant)")
 		} else if diff != "" {
 			res.AddViolation("impl-vs-model", "lexer: "+diff, fmt.Sprintf("%q", string(src)), true)
+			// the correspondence is broken: look for a failing input of the property itself — an identifier the REAL lexer
+			// places somewhere else than where its bytes are (S-col through the model's token offsets, which need the
+			// identifier sequences of both sides to agree)
+			implDump, _, _ := lib.LexDump(src)
+			var implIds [][2]string // text hex, 0-based "l:sc:l:ec"
+			for _, it := range strings.Split(implDump, ";") {
+				f := strings.Split(it, ",")
+				if len(f) >= 4 && f[0] == fmt.Sprint(int(lexer.TkIdentifier)) {
+					var sl, sc, el, ec int
+					fmt.Sscanf(f[3], "%d:%d:%d:%d", &sl, &sc, &el, &ec)
+					implIds = append(implIds, [2]string{f[1], fmt.Sprintf("%d:%d:%d:%d", sl-1, sc, el-1, ec)})
+				}
+			}
+			if ans, err := drv.Ask(fmt.Sprintf("lexcol %s %s", lib.Hex(src), lib.ConvTableFor(src))); err == nil {
+				if k := strings.LastIndex(ans, " P"); k > 0 {
+					items := strings.Split(ans[:k], ";")
+					if len(items) == len(implIds) {
+						for i, it := range items {
+							f := strings.Split(it, ",")
+							if len(f) != 5 || f[0] != implIds[i][0] {
+								break
+							}
+							sp, cls := strings.TrimPrefix(f[2], "S="), strings.TrimPrefix(f[3], "K=")
+							if implIds[i][1] != sp && !strings.ContainsAny(cls, "RN") {
+								res.AddViolation("impl-vs-spec", fmt.Sprintf("identifier %q is reported at %s, its bytes are at %s (line-prefix classes %q)", string(lib.UnHex(f[0])), implIds[i][1], sp, cls), fmt.Sprintf("%q", string(src)), false)
+								break
+							}
+						}
+					}
+				}
+			}
 			return nil
 		}
 		ans, err := drv.Ask(fmt.Sprintf("lexcol %s %s", lib.Hex(src), lib.ConvTableFor(src)))
@@ -117,7 +149,7 @@ func runC04(res *lib.Result, tier string, seed int64, args []string) error {
 				}
 				caseText := fmt.Sprintf("identifier %q at bytes %d-%d reported at %s, true position %s, line-prefix classes %q in %q", string(lib.UnHex(f[0])), a, b, m, s, cls, string(src))
 				hit := false
-				for _, letter := range []byte("RELAN") {
+				for _, letter := range []byte("RN") { // E (escapes), L (long brackets) and A (characters outside the BMP) were repaired: no excuse
 					if strings.IndexByte(cls, letter) >= 0 {
 						kf := c04Known[letter]
 						res.HitKnown(kf[0], kf[1], caseText)
@@ -156,6 +188,10 @@ func runC04(res *lib.Result, tier string, seed int64, args []string) error {
 			continue
 		}
 		src := renderTokens(r, toks)
+		if i%4 == 1 {
+			// an invalid long-string opener on a LATER line (its diagnostic must be on that line, at its column)
+			src += "\nlocal zq = 1\n  zq = [=abc\n"
+		}
 		// (4) every Loc the parser attaches to an AST node (names, parameters, attributes, members) = parser model
 		if diff, unmod, _, err := compareParse(drv, []byte(src)); err != nil {
 			return err
@@ -174,11 +210,7 @@ func runC04(res *lib.Result, tier string, seed int64, args []string) error {
 			errPart = dump[:i]
 		}
 		if bad := badLocs(errPart, nLines); bad != "" {
-			// classes: multi-line tokens and the absolute-offset column of 'invalid long string delimiter'
-			if strings.Contains(src, "[=") || strings.Contains(src, "[[") || strings.Contains(src, "\\\n") || strings.Contains(src, "\\\r") {
-				res.HitKnown("C04-K2", c04Known['L'][1], fmt.Sprintf("%s in %q", bad, src))
-				continue
-			}
+			// (multi-line tokens and the 'invalid long string delimiter' column used to be excused here; both were repaired)
 			res.AddViolation("impl-vs-spec", "ill-formed location in the parser's output: "+bad, fmt.Sprintf("%q", src), false)
 		}
 	}
@@ -250,7 +282,7 @@ func c04E2E(res *lib.Result, tier string, root *lib.Rng) error {
 				bad = "line outside the document"
 			case rg.Start.Line > rg.End.Line || (rg.Start.Line == rg.End.Line && rg.Start.Character > rg.End.Character):
 				bad = "start after end"
-			case rg.Start.Character > len(lines[rg.Start.Line]) || rg.End.Character > len(lines[rg.End.Line]):
+			case rg.Start.Character > utf16Len(lines[rg.Start.Line]) || rg.End.Character > utf16Len(lines[rg.End.Line]):
 				bad = "column beyond the end of its line"
 			}
 			res.Evaluations++
@@ -265,7 +297,7 @@ func c04E2E(res *lib.Result, tier string, root *lib.Rng) error {
 				bad = "line outside the document"
 			case rg.Start.Line > rg.End.Line || (rg.Start.Line == rg.End.Line && rg.Start.Character > rg.End.Character):
 				bad = "start after end"
-			case rg.Start.Character > len(lines[rg.Start.Line]) || rg.End.Character > len(lines[rg.End.Line]):
+			case rg.Start.Character > utf16Len(lines[rg.Start.Line]) || rg.End.Character > utf16Len(lines[rg.End.Line]):
 				bad = "column beyond the end of its line"
 			}
 			res.Evaluations++
@@ -291,20 +323,22 @@ func c04E2E(res *lib.Result, tier string, root *lib.Rng) error {
 				return "", false
 			}
 			l := lines[rg.Start.Line]
-			if rg.Start.Character < 0 || rg.End.Character > len(l) || rg.Start.Character > rg.End.Character {
+			bs, be := byteCol(l, rg.Start.Character), byteCol(l, rg.End.Character)
+			if bs < 0 || be < bs {
 				return "", false
 			}
-			return l[rg.Start.Character:rg.End.Character], true
+			return l[bs:be], true
 		}
 		textAt := func(rg lib.Range) (string, bool) {
 			if rg.Start.Line != rg.End.Line || rg.Start.Line < 0 || rg.Start.Line >= len(lines) {
 				return "", false
 			}
 			l := lines[rg.Start.Line]
-			if rg.Start.Character < 0 || rg.End.Character > len(l) || rg.Start.Character > rg.End.Character {
+			bs, be := byteCol(l, rg.Start.Character), byteCol(l, rg.End.Character)
+			if bs < 0 || be < bs {
 				return "", false
 			}
-			return l[rg.Start.Character:rg.End.Character], true
+			return l[bs:be], true
 		}
 		for _, p := range identTokens("main.lua", src) {
 			// a member that has no declaration of its own falls back to the variable it is reached through:
@@ -313,18 +347,18 @@ func c04E2E(res *lib.Result, tier string, root *lib.Rng) error {
 			okRef := map[string]bool{p.name: true, "\"" + p.name + "\"": true, "'" + p.name + "'": true}  // occurrences (references, highlight): no fall-back
 			{
 				l := lines[p.line]
-				i := p.col
+				i := p.bcol
 				for i > 0 && (l[i-1] == '.' || l[i-1] == ':' || l[i-1] == '_' || l[i-1] == '[' || l[i-1] == ']' || l[i-1] == '"' || l[i-1] == '\'' || (l[i-1] >= 'a' && l[i-1] <= 'z') || (l[i-1] >= 'A' && l[i-1] <= 'Z') || (l[i-1] >= '0' && l[i-1] <= '9')) {
 					i--
 				}
-				for _, part := range strings.FieldsFunc(l[i:p.col], func(c rune) bool { return c == '.' || c == ':' || c == '[' || c == ']' || c == '"' || c == '\'' }) {
+				for _, part := range strings.FieldsFunc(l[i:p.bcol], func(c rune) bool { return c == '.' || c == ':' || c == '[' || c == ']' || c == '"' || c == '\'' }) {
 					okText[part] = true
 				}
 			}
 			// a key of a table constructor without a declaration of its own falls back to the variable the
 			// table is assigned to: the identifiers to its left on the same line
-			if rest := strings.TrimLeft(lines[p.line][p.col+len(p.name):], " "); strings.HasPrefix(rest, "=") && !strings.HasPrefix(rest, "==") {
-				for _, q := range identTokens("main.lua", lines[p.line][:p.col]) {
+			if rest := strings.TrimLeft(lines[p.line][p.bcol+len(p.name):], " "); strings.HasPrefix(rest, "=") && !strings.HasPrefix(rest, "==") {
+				for _, q := range identTokens("main.lua", lines[p.line][:p.bcol]) {
 					okText[q.name] = true
 				}
 			}
@@ -333,7 +367,7 @@ func c04E2E(res *lib.Result, tier string, root *lib.Rng) error {
 					if f := sess.Rel(l.URI); f != "main.lua" {
 						// a place of another file: inside that file, and on the identifier (a module name leads to the start of its file)
 						checkIn(f, fmt.Sprintf("definition of %s at %d:%d", p.name, p.line, p.col), l.Range)
-						if t, ok := textIn(f, l.Range); ok && !okText[t] && !(p.name == "mod" && l.Range.Start.Line == 0) && !strings.Contains(lines[p.line][:p.col], "require") {
+						if t, ok := textIn(f, l.Range); ok && !okText[t] && !(p.name == "mod" && l.Range.Start.Line == 0) && !strings.Contains(lines[p.line][:p.bcol], "require") {
 							res.AddViolation("impl-vs-spec", fmt.Sprintf("definition of %s at %d:%d: the range %s of %s selects %q, not the identifier", p.name, p.line, p.col, locOfRange(l.Range), f, t), src, false)
 						}
 					}
